@@ -53,7 +53,7 @@ CLAIMED["C06"] = dict(
 
 CLAIMED["C13"] = dict(
     engine="P", technique="metamorphic + model-based property testing: generated condition formulas evaluated by an independent evaluator, compared with tool output byte-wise and through symbol extraction",
-    text="Generated formulas (depth <= 3 over *, backend names, supports= flags, not/any/all) on modules, types, impls and methods. Per backend the output must be byte-identical to the output of the program in which each formula is replaced by its truth value (`*` or attribute removed), the symbols used must equal the model's enabled set under inheritance, and nm must still show every function. A second leg checks 24k (quick) formula evaluations in-process against the evaluator with random supports tables. Exploration.",
+    text="Generated formulas (depth <= 3 over *, backend names, supports= flags, not/any/all) on modules, types, impls and methods. Per backend the output must be byte-identical to the output of the program in which each formula is replaced by its truth value (`*` or attribute removed), a rename whose condition holds (own, or an impl block's pattern) must show in the C++/JS/Dart/Python output, nested disables (inherited plus own) must mean disabled, the symbols used must equal the model's enabled set under inheritance, and nm must still show every function. A second leg checks 24k (quick) formula evaluations in-process against the evaluator with random supports tables. Exploration.",
     note="Trusted: the evaluator (book/src/attrs.md), the run-time calibration of supports= atoms by canary methods, the `*` base case (validated by the canary), the symbol extractors.",
     ref="DESIGN.md §2 C13")
 
